@@ -219,3 +219,14 @@ PROPS["C19"] = dict(
         dict(test="^TestC19_Static$", quick=dict(checks=300, timeout=900), thorough=dict(checks=3000, shards=4, timeout=3000)),
     ],
 )
+
+PROPS["C20"] = dict(
+    pkg="c20", level="fault_enumeration",
+    technique="rapid-generated crash points: a re-executed child process logs and acknowledges returned calls on a pipe, is SIGKILLed or exits at the K-th acknowledgement, and the parent checks every acknowledged line in the target",
+    level_text="Fault enumeration over generated crash points: for each synchronous appender kind (File, RollingFile, Console on an inherited descriptor; via Logger and via the File/RollingFile/Console logger kinds), both layouts, 1-4 goroutines and N calls, the child is killed (SIGKILL) or exits (status 0/3) right after the K-th acknowledged call; every call acknowledged before death must have its complete self-validating line in the target exactly once.",
+    level_note="Crash points are sampled from 1..G*N, not all enumerated. Process-crash write-through only (no fsync / power-loss claim). Trusted: the acknowledgement pipe (one direct write(2) per returned call).",
+    rule="generated crash points, 8 children per case",
+    steps=[
+        dict(test="^TestC20_CrashPoints$", quick=dict(checks=40, timeout=900, shrink="5s"), thorough=dict(checks=50, shards=8, timeout=3000, shrink="5s")),
+    ],
+)
